@@ -634,15 +634,9 @@ class _TRSTractList:
 
         def parse_key(k_):
             k_ = k_.lower()
-            mo = re.search(pat, k_)
+            mo = re.fullmatch(pat, k_)
             if not mo:
                 raise illegal_key_error
-            if len(mo.group(0)) != len(k_):
-                import warnings
-                warnings.warn(SyntaxWarning(
-                    f"Sort key {k_!r} may not have been fully interpreted. "
-                    f"Check to make sure you are using the correct syntax."
-                ))
 
             var = mo.group("var")
             method = mo.group("method")
